@@ -11,6 +11,9 @@ CONSTANTS
   QCap = 0
   Gating = FALSE
   QfRet = TRUE
+  Echo = "xml10"
+  PName = "exact"
+  Deep = "caught"
   LexG = "eol"
 INVARIANT InvNoDroppedConnection
 CHECK_DEADLOCK FALSE
